@@ -12,7 +12,8 @@
      out                every byte the server wrote (BND.ADDR/BND.PORT of successful replies zeroed)
      dialled            the loopback target accepted a connection from the handler
      target_bytes       bytes the target received on it
-     listened           a successful reply to UDP ASSOCIATE announced a port *)
+     listened           a successful reply to UDP ASSOCIATE announced a port
+     probes             datagrams sent to that port: (source IP, source port, was it forwarded) *)
 From Coq Require Import List ZArith NArith Bool String.
 From Coq.Strings Require Import Byte.
 From L4 Require Import Hex.
@@ -23,13 +24,14 @@ Open Scope Z_scope.
 Inductive c16case :=
 | CSess (cmds : list string) (creds : list (string * string)) (envt : list (string * string))
         (resolved : string) (dialr listenr : Z) (script : string)
-        (prov_ok : bool) (out : string) (dialled : bool) (target_bytes : string) (listened : bool).
+        (prov_ok : bool) (out : string) (dialled : bool) (target_bytes : string) (listened : bool)
+        (probes : list (string * Z * bool)).
 
 Definition hexpair (p : string * string) : bytes * bytes := (unhex (fst p), unhex (snd p)).
 
 Definition check (c : c16case) : bool :=
   match c with
-  | CSess cmds creds envt resolved dialr listenr script prov_ok out dialled tbytes listened =>
+  | CSess cmds creds envt resolved dialr listenr script prov_ok out dialled tbytes listened probes =>
       let table := map hexpair envt in
       let cfg := {| commands := map unhex cmds; credentials := map hexpair creds |} in
       match provision (replace_all (fun k => assoc k table)) ascii_upper cfg with
@@ -37,12 +39,17 @@ Definition check (c : c16case) : bool :=
       | Some srv =>
           let e := {| resolve := fun _ => match unhex resolved with [] => None | ip => Some ip end;
                       dial := fun _ _ => if dialr =? 0 then DialOK false else if dialr =? 1 then DialOK true else DialRefused;
-                      listen_udp := if listenr =? 0 then Some false else if listenr =? 1 then Some true else None |} in
+                      listen_udp := if listenr =? 0 then Some false else if listenr =? 1 then Some true else None;
+                      client_ip := Some (unhex "7f000001") (* RemoteAddr of the harness's client connection *) |} in
           let '(evs, fin) := serve srv e (unhex script) in
           prov_ok
           && bytes_eqb (written evs) (unhex out)
           && Bool.eqb (existsb outbound_dial evs && (dialr <? 2)) dialled
           && bytes_eqb (match fin with EProxy rest => rest | _ => [] end) (unhex tbytes)
           && Bool.eqb (existsb is_listen evs && (listenr <? 2)) listened
+          && forallb (fun p => match p with (sip, sport, relayed) =>
+                 existsb (fun ev => match ev with
+                                    | ListenUDP dip dport => Bool.eqb (relay_accepts dip dport (unhex sip) sport) relayed
+                                    | _ => false end) evs end) probes
       end
   end.
